@@ -75,6 +75,7 @@ CONSTANTS WsSeparates,          \* strict['whitespace-separates-paragraphs'] (de
           MaxPara, MaxFields, MaxCont, MaxTotal,   \* bounds of the bounded configuration
           ShapeMode,            \* 0: every value shape; 1: only "v" and "<empty>+MaxCont lines" (wide documents)
           ArmorHdrs,            \* set of numbers of armor header lines tried (subset of 0..2)
+          BigSel,               \* indexes into BigTable (size-stress configuration)
           SigBools,             \* values tried for "blank line / armor header after BEGIN PGP SIGNATURE"
           Emit
 
@@ -196,9 +197,12 @@ Apply(b, s, ln) ==
 
 StepF(s, ln) == Apply(BranchOf(s, ln.c), s, ln)
 
-RECURSIVE RunFrom(_, _, _)
-RunFrom(s, ls, i) == IF i > Len(ls) THEN s ELSE RunFrom(StepF(s, ls[i]), ls, i + 1)
-Run(raw, ls) == RunFrom(RInit(raw), ls, 1)
+\* the automaton run over ls[lo..hi] (split in halves: recursion depth log n, large documents stay cheap)
+RECURSIVE RunRange(_, _, _, _)
+RunRange(s, ls, lo, hi) == IF lo > hi THEN s
+                           ELSE IF lo = hi THEN StepF(s, ls[lo])
+                           ELSE LET mid == (lo + hi) \div 2 IN RunRange(RunRange(s, ls, lo, mid), ls, mid + 1, hi)
+Run(raw, ls) == RunRange(RInit(raw), ls, 1, Len(ls))
 
 \* what the caller has at end of input (EOFError on an empty payload = empty paragraph = stop)
 Finish(s) == IF s.stopped THEN s.done
@@ -213,8 +217,12 @@ GpgMvParse(ls)   == ParseOne(FirstPayload(ls))
 
 ----------------------------------------------------------------------------
 (* dump() and clearsign armor *)
-RECURSIVE Flat(_)
-Flat(ss) == IF ss = <<>> THEN <<>> ELSE Head(ss) \o Flat(Tail(ss))
+\* concatenation of a sequence of sequences (divide and conquer: large documents stay cheap)
+RECURSIVE FlatR(_, _, _)
+FlatR(ss, lo, hi) == IF lo > hi THEN <<>>
+                     ELSE IF lo = hi THEN ss[lo]
+                     ELSE LET mid == (lo + hi) \div 2 IN FlatR(ss, lo, mid) \o FlatR(ss, mid + 1, hi)
+Flat(ss) == FlatR(ss, 1, Len(ss))
 
 DumpField(fl) == <<IF fl.v[1] = NoText THEN Ln("Multi", fl.k, NoText, FALSE)
                                         ELSE Ln("Single", fl.k, fl.v[1], TRUE)>>
@@ -277,7 +285,7 @@ DoneGrows    == [][Len(rd'.done) >= Len(rd.done) /\ SubSeq(rd'.done, 1, Len(rd.d
 (* bounded configuration: all documents *)
 Shapes == IF ShapeMode = 0 THEN [e : BOOLEAN, n : 0..MaxCont]
           ELSE {[e |-> FALSE, n |-> 0], [e |-> TRUE, n |-> MaxCont]}
-TextId(p, f, j) == 100 * p + 10 * f + j
+TextId(p, f, j) == (p * 1000 + f) * 1000 + j      \* p <= 1000, f < 1000, j < 1000: below 2^31
 ValueOf(p, f, sh) == <<IF sh.e THEN NoText ELSE TextId(p, f, 0)>> \o [j \in 1..sh.n |-> TextId(p, f, j)]
 DocOf(d) == [p \in 1..Len(d) |-> [f \in 1..Len(d[p]) |-> [k |-> f, v |-> ValueOf(p, f, d[p][f])]]]
 RECURSIVE NFields(_)
@@ -326,6 +334,34 @@ GpgMvAgrees ==
             /\ \A pre \in GpgLeads : GpgMvParse(pre \o A) = P[1]
             /\ \A i \in 0..Len(A) : GpgMvParse(InsertAt(A, i, CommentLn)) = P[1]
             /\ GpgMvParse(AllComments(A)) = P[1]
+
+----------------------------------------------------------------------------
+(* size stress: a few LARGE uniform documents (1000 paragraphs, 100 fields, 100+ continuation   *)
+(* lines).  The automaton is the same; what is checked is that nothing in the specification     *)
+(* depends on a count, and the harness gets TLC's expected parse for documents of that size.    *)
+BigTable == << <<10, 1, 0>>, <<100, 2, 1>>, <<1000, 1, 0>>, <<1, 10, 1>>, <<1, 100, 0>>, <<1, 1, 120>>,
+               <<2, 2, 101>>, <<10, 10, 2>>, <<33, 3, 9>>, <<1, 33, 17>>, <<257, 1, 1>> >>
+BigShape(p, f, nc) == [e |-> (p + f) % 3 = 0, n |-> IF (p + f) % 2 = 0 THEN nc ELSE 0]
+BigDoc(t) == [p \in 1..t[1] |-> [f \in 1..t[2] |-> BigShape(p, f, t[3])]]
+\* one dummy initial state per selected entry (so that TLC's workers share the large documents)
+BigInit == rd \in {[RInit(FALSE) EXCEPT !.curkey = i] : i \in BigSel} /\ doc = <<>>
+BigNext == doc = <<>> /\ doc' = BigDoc(BigTable[rd.curkey]) /\ UNCHANGED rd
+BigSpec == BigInit /\ [][BigNext]_vars
+BigLeads == {<<BlankLn>>, <<CommentLn, BlankLn>>, <<BlankLn, CommentLn>>}
+BigArmor == [nh |-> 1, b |-> TRUE, sb |-> TRUE, sh |-> FALSE]
+\* documents of more than 1000 lines: only the families marked (*)
+BigInvariant ==
+    doc # <<>> =>
+    /\ LET r == Parse(D) IN r = P /\ r[1] = P[1]                                   \* (*) iter_paragraphs, Deb822(x)
+    /\ Parse(AllComments(D)) = P                                                  \* (*)
+    /\ Parse(<<CommentLn, BlankLn>> \o D) = P                                     \* (*)
+    /\ Len(D) <= 1000 =>
+         /\ \A i \in {0, Len(D) \div 2, Len(D)} : Parse(InsertAt(D, i, CommentLn)) = P
+         /\ \A pre \in BigLeads : Parse(pre \o D) = P
+         /\ Parse(D \o <<BlankLn, BlankLn>>) = P
+         /\ Len(P) = 1 => /\ Parse(Armor(D, BigArmor)) = P
+                          /\ GpgMvParse(Armor(D, BigArmor)) = P[1]
+                          /\ GpgMvParse(D) = P[1]
 
 \* one CASE line per document: the shape, dump(P) and what the reader must return for it
 EmitCase == Emit => PrintT(<<"CASE", ToJson([shape |-> doc, doc |-> P, lines |-> D, parse |-> Parse(D),
